@@ -69,16 +69,60 @@ def _atoms_of(e, names, out):
         out.append(t)
 
 
-def _constructed(idx, fi, stmts):
-    """algorithm classes constructed in these statements (assigned or passed on)"""
+def _constructed(idx, fi, stmts, ev=None):
+    """algorithm classes constructed in these statements (assigned or passed on) under the truth assignment of `ev`: conditional
+    expressions are followed along the branch their test selects, and a class may be bound to a local first
+    (`krylov = Lanczos if SA else Arnoldi; alg = krylov(...)`).  '?' stands for a call through a local that could not be resolved."""
     algs = {c.name for c in idx.algorithm_classes()}
     out = []
+    local = {}
+
+    def pick(e):
+        """sub-expressions of e that are evaluated under ev"""
+        if isinstance(e, ast.IfExp) and ev is not None:
+            try:
+                return pick(e.body if ev.val(e.test) else e.orelse)
+            except KeyError:
+                return pick(e.body) + pick(e.orelse)
+        if isinstance(e, ast.IfExp):
+            return pick(e.body) + pick(e.orelse)
+        return [e]
+
+    def classes_of(e):
+        names = []
+        for x in pick(e):
+            r = idx.resolve_expr(fi.module, x, fi) if isinstance(x, (ast.Name, ast.Attribute)) and not (isinstance(x, ast.Name) and x.id in local) else None
+            if r is not None and r.kind == "class":
+                names.append(r.val.name)
+            elif isinstance(x, ast.Name) and x.id in local:
+                names += classes_of(local[x.id])
+            else:
+                names.append("?")
+        return names
+
+    def visit(e):
+        for x in pick(e):
+            if isinstance(x, ast.Call):
+                for cn in classes_of(x.func):
+                    if cn in algs or (cn == "?" and isinstance(x.func, ast.Name) and x.func.id in local):
+                        out.append(cn)
+                for a_ in list(x.args) + [k.value for k in x.keywords]:
+                    visit(a_)
+            else:
+                for c in ast.iter_child_nodes(x):
+                    if isinstance(c, ast.expr):
+                        visit(c)
+
     for st in stmts:
-        for c in ast.walk(st):
-            if isinstance(c, ast.Call):
-                r = idx.resolve_expr(fi.module, c.func, fi)
-                if r is not None and r.kind == "class" and r.val.name in algs:
-                    out.append(r.val.name)
+        if isinstance(st, ast.Assign) and len(st.targets) == 1 and isinstance(st.targets[0], ast.Name):
+            local[st.targets[0].id] = st.value
+        for c in ast.iter_child_nodes(st):
+            if isinstance(c, ast.expr):
+                visit(c)
+            elif isinstance(c, ast.stmt):
+                for y in ast.walk(c):
+                    if isinstance(y, ast.Call):
+                        visit(y)
     return out
 
 
@@ -124,6 +168,15 @@ def decision_table(idx, rule):
             _atoms_of(test[1], names, atoms)
         else:
             _atoms_of(test, names, atoms)
+    # conditions that select what is constructed INSIDE a branch (`Eigh() if SA else Eig()`) are atoms as well
+    for _test, stmts in branches:
+        local = {}
+        for st in stmts:
+            if isinstance(st, ast.Assign) and len(st.targets) == 1 and isinstance(st.targets[0], ast.Name):
+                local[st.targets[0].id] = st.value
+            for n in ast.walk(st):
+                if isinstance(n, ast.IfExp):
+                    _atoms_of(n.test, names, atoms)
     d.atoms = atoms
     if len(atoms) > 6:
         d.problems.append(f"{len(atoms)} atomic conditions: too many to tabulate")
@@ -147,7 +200,7 @@ def decision_table(idx, rule):
             d.rows.append((asg, None))
         else:
             asserts_false = any(isinstance(s, ast.Assert) and isinstance(s.test, ast.Constant) and s.test.value is False for s in chosen)
-            d.rows.append((asg, "UNREACHABLE" if asserts_false else _constructed(idx, fi, chosen)))
+            d.rows.append((asg, "UNREACHABLE" if asserts_false else _constructed(idx, fi, chosen, ev)))
     return d
 
 
@@ -238,6 +291,8 @@ def check_auto(idx, res, rep, fname, alg_pos, rule_name="auto-rule"):
                 continue
             facts = isa_atoms(idx, rule.func, asg)
             for cls in chosen:
+                if cls == "?":
+                    continue
                 for need, r2 in required_annotations(idx, res, fname, alg_pos, cls):
                     n += 1
                     holds = False
